@@ -32,7 +32,7 @@ func init() {
 			"strings contain no CR (encoding/csv normalises CRLF inside quoted fields) and floats no infinities (not representable in JSON) in this check; C13/C14/C16 cover those",
 			"columns of the typeless zero-row kind are outside the property; order/strictness of derived enums is not carried by a rebuilt frame, so derived enums are not used as sort keys in the same-results sub-check",
 		},
-		Stages:   stages(10000, 250000, 0, 0),
+		Stages:   stages(10000, 1200000, 0, 0),
 		RunCase:  runC09,
 		Conclude: shapeConclude(40),
 	})
